@@ -306,6 +306,24 @@ func (ex *Exec) protoMethod(recv iface, name string) *modelClosure {
 				}
 				return ex.k(n)
 			})
+		case "Get":
+			return mk(func(ex *Exec, fr *frame, pos token.Pos, args []value) value {
+				want, ok := args[1].(*smt.Term).ConstInt()
+				if !ok {
+					panic(ex.unsupported("protoreflect Oneofs().Get with a symbolic index"))
+				}
+				n := int64(0)
+				for i, fi := range protoFieldsOf(d.st) {
+					if fi.kind == -1 {
+						if n == want.Int64() {
+							return iface{pmOneofT, protoOneofV{d.st, i}}
+						}
+						n++
+					}
+				}
+				ex.oblige("panic", "protoreflect Oneofs().Get: index out of range", fr, pos, ex.b.False)
+				return iface{}
+			})
 		}
 	case pmFieldT:
 		f := recv.v.(protoFieldV)
